@@ -9,7 +9,6 @@ NOT_APPLICABLE = {
     'C02': 'spectral correctness depends on eigen-gaps and a runtime convergence test; pinning the tolerance constant would be a frozen-source proxy',
     'C04': 'OLS limit, monotone RSS, beta/score agreement and affine equivariance are numerical relations between runs',
     'C09': 'equivalence of two iterative algorithms up to tolerance is numerical; guard and bounds clauses are covered under C10/C11',
-    'C17': 'greedy optimality, equality of two implementations\' outputs and centroid/label optimality are value-level; partition and termination are C13/C18',
 }
 
 # property -> (engine, category, technique, text, note, design_ref)
@@ -34,6 +33,10 @@ CLAIMED = {
             'Decides in exact arithmetic: MLR builds the design matrix [1 | X]; for every response column the coefficient vector is OrdinaryLeastSquares(design, y_j) = (D\'D)^-1 D\'y_j, appended as column j (row 0 = intercept); hence the normal equations hold -- training residuals sum to zero and are orthogonal to every predictor, noise-free linear data are recovered, and the fit is equivariant to shifts/scalings of a response and to invertible re-mixing of the predictors; MLRPredictY computes intercept + X b for any matrix, residual = predicted - observed, R2 = 1 - RSS/TSS about the column mean of the observed response and SDEC = sqrt(RSS/n). NOT decided: the numerical accuracy of the Gauss-Jordan inverse on ill-conditioned X (condition numbers up to 1e4 are in the quantifier), R2 in [0,1] as a floating-point statement.',
             'Trusted: clang AST; real arithmetic; X of full column rank (the property\'s premise) so that the inverse exists. Unrecognised loop shapes are ANALYSIS-BROKEN.',
             'DESIGN.md 3/C07 (revised in 10.7), 10.6 (E16, E17, E15)'),
+    'C17': ('kmeanscheck+slices', 'other', 'cell-form extraction with symbolic indices for the distance and the scatter-mean update, structural recognition of the running-minimum idiom, and the partition / ownership / accumulator rules of the slicing engine on the clustering dispatchers',
+            'Decides the k-means clauses only, in exact arithmetic: every object is labelled with the index (in range) of the first centroid at minimal Euclidean distance; every returned centroid is the mean of the objects carrying its label (empty clusters re-seeded from a data row); labels do not depend on the thread count (rows partitioned exactly once among the workers for every rows/threads pair of the bound, workers own their rows and carry no accumulator across rows). NOT decided: convergence within the documented tolerance; every clause about the selection methods (MDC, both max-min implementations, k-means++): number and distinctness of the returned indices, farthest-first optimality, equality of the two max-min implementations.',
+            'Trusted: clang AST; real arithmetic; thread counts >= 1; no aliasing. Unrecognised loop shapes are ANALYSIS-BROKEN.',
+            'DESIGN.md 3/C17 (revised in 10.7)'),
     'C19': ('dims+spline+simplex', 'other', 'units-of-measure inference (dimensions X^a Y^b, linear system over Q) plus statement-level computer algebra: array stores read as rational functions of symbolic cells with a symbolic index, recognition of the Thomas elimination / back-substitution recurrences, polynomial normalisation of the spline conditions; pairing typestate over the Nelder-Mead table; nothing is executed, no loop unrolled',
             'Decides in exact arithmetic: unit independence (dimensional homogeneity); the spline passes through every point, has a continuous second derivative, solves exactly the first-derivative-continuity system (one multiplier per eliminated row, covering back substitution, reads inside defined ranges), has zero second derivative at both ends, reproduces straight lines, and is evaluated as the cubic of the piece whose own range guard holds; every trapezoid term is the exact integral of its segment and the area is the plain sum over all consecutive segments (additive); in the simplex minimiser every stored value is the objective at its own row, the reported value is the objective at the returned point (row 0 after an ascending whole-row sort) and the best vertex is never overwritten, so the result is never worse than the best initial vertex. Floating-point rounding, non-increasing abscissae and convergence of the minimiser are NOT decided.',
             'Trusted: clang AST; seeds (column 0 = X, column 1 = Y, abscissa vector X, prediction Y); literal 0 polymorphic, other literals dimensionless under +,-,compare; sentinel tests against MISSING exempt; Thomas algorithm correctness and real arithmetic. A sweep/back-substitution shape that is not recognised is ANALYSIS-BROKEN (exit 2), never a pass.',
